@@ -929,6 +929,7 @@ def run(rep, progs, tier):
     rep.rule("C02.read-then-parse", "no cycle through a read avoids the parser; read helpers read once per call")
     rep.rule("C02.valid-prefix", "with a slice-based read (zero-padded buffer) the parser is given the helper's returned slice or the buffer cut at the received count")
     rep.rule("C02.grow", "every loop around a slice-based read can grow the buffer (in the loop or in the read helper)")
+    rep.rule("C02.siblings.eof.guard", "both receive flavours classify a 0-byte read by the same two facts (C10's rule, decided here for 'identical results for the same bytes')")
     rep.rule("C02.siblings", "both receive flavours loop parse->read->EOF over the shared builder")
     rep.trusted = ["rustc MIR construction", "mpdfacts exporter", "nom 7 streaming combinator semantics", "bytes::BytesMut semantics"]
     rep.assume("blocking-connection buffer arithmetic (total_received <= recv_buf.len(), content preservation of split_off/unsplit) is not decided")
@@ -945,3 +946,12 @@ def run(rep, progs, tier):
         valid_prefix_rule(rep, prog, cfg)
         grow_rule(rep, prog, cfg)
         never_empty_rule(rep, prog, cfg)
+        # "the terminal outcome depends only on the bytes" and "both flavours give identical results": how a 0-byte read is classified
+        # (clean close only with no frame in progress and no unconsumed bytes) is C10's rule on both receive flavours, decided here
+        # for C02's clause — a flavour that tests a different fact (the slice a helper handed back instead of the running count)
+        # classifies the same bytes differently
+        from . import C10
+        with rep.importing("C10.", "C02.siblings.eof."):
+            C10.receive_rule(rep, prog, cfg, "mpd_protocol::connection::Connection::receive", "blocking")
+            if cfg != "K3":
+                C10.receive_rule(rep, prog, cfg, "mpd_protocol::connection::AsyncConnection::receive", "async")
